@@ -1,0 +1,20 @@
+//go:build verif
+
+// Verification hook (build tag "verif") for the lifecycle check under /verif (C14): lets the
+// harness put a wrapper around the connection to the collector, so that it can hold a background
+// write and observe whether a CloseConnToCollector call returns while that write is in flight.
+// Add-only: nothing here is compiled without the tag.
+
+package exporter
+
+import "net"
+
+// VerifWrapConn replaces the connection to the collector by wrap(current connection).
+// The replacement is made under the send mutex, which orders it with every write of the
+// exporting process. Meant for UDP exporters, right after InitExportingProcess (the TCP
+// connection checker reads the connection without that mutex).
+func (ep *ExportingProcess) VerifWrapConn(wrap func(net.Conn) net.Conn) {
+	ep.sendMutex.Lock()
+	defer ep.sendMutex.Unlock()
+	ep.connToCollector = wrap(ep.connToCollector)
+}
